@@ -521,6 +521,10 @@ def stepwise_wiring(chk):
         for o in Interp(prog, add, decide=decide).run():
             chk.count()
             if o.kind == "raise":
+                # a refused (re-defined) threshold leaves the table as it was: nothing is recorded before the check that can fail
+                if any(e[0] == "call" and e[1][1][0] == "attr" and e[1][1][2] in ("append", "add", "insert", "extend") and e[1][1][1][0] == "attr" and e[1][1][1][1] == SELF for e in o.path.events):
+                    chk.bad(rule, add.qual, "add records the rule BEFORE the check that refuses it: the ValueError is raised, but the rejected pair stays in the table and every later control(pool) fails or uses the wrong rule", node=add.node, stmt="add-recorded-before-refusal")
+                    ok = False
                 continue
             evs = o.path.events
             apps = [e[1] for e in evs if e[0] == "call" and e[1][1][0] == "attr" and e[1][1][2] == "append" and e[1][1][1][0] == "attr" and e[1][1][1][1] == SELF]
@@ -914,6 +918,25 @@ def switch(chk):
     elif not slaves_assign or "sorted(" not in ast.unparse(slaves_assign[0].value):
         chk.bad(rule, init.qual, "the slaves are not sorted by threshold: 'last match wins' then depends on declaration order", node=slaves_assign[0] if slaves_assign else init_node, stmt="slaves-unsorted")
         ok2 = False
+    # the flat argument list (demand, controller, demand, controller, ...) is cut into DISJOINT pairs
+    if slaves_assign:
+        for c in ast.walk(slaves_assign[0].value):
+            if isinstance(c, ast.Call) and len(c.args) == 1 and not c.keywords and isinstance(c.func, (ast.Name, ast.Attribute)) and "slaves" in util.unparse(c.args[0]) and util.dotted(c.func) not in ("sorted", "tuple", "list", "iter"):
+                chk.count()
+                fnq = prog.resolve(init.module, c.func)
+                pfi = prog.functions.get(fnq or "")
+                if fnq == "ext:itertools.pairwise":
+                    chk.bad(rule, init.qual, "the slaves are paired with itertools.pairwise, which yields OVERLAPPING pairs (d0, c0), (c0, d1), ...: every second 'pair' is (controller, demand) and any switch with two or more slaves is refused or mis-paired", node=c, stmt="slaves-paired-overlapping")
+                    ok2 = False
+                elif pfi is not None:
+                    flat = [x for x in ast.walk(pfi.node) if isinstance(x, ast.Call)]
+                    disjoint = any(isinstance(x, ast.Call) and util.dotted(x.func) == "zip" and len(x.args) == 2 and ast.dump(x.args[0]) == ast.dump(x.args[1]) and isinstance(x.args[0], ast.Name) for x in flat) or any(isinstance(x, ast.Call) and util.dotted(x.func) == "zip" and len(x.args) == 2 and all(isinstance(a, ast.Subscript) and isinstance(a.slice, ast.Slice) and isinstance(a.slice.step, ast.Constant) and a.slice.step.value == 2 for a in x.args) for x in flat)
+                    overlapping = any(prog.resolve(pfi.module, x.func) == "ext:itertools.pairwise" for x in flat)
+                    if overlapping:
+                        chk.bad(rule, pfi.qual, "%s returns itertools.pairwise(...), which yields OVERLAPPING pairs (a, b), (b, c), ...: the slave table of a DemandSwitch needs the disjoint pairs (a, b), (c, d)" % pfi.name, node=pfi.node, stmt="slaves-paired-overlapping")
+                        ok2 = False
+                    elif not disjoint:
+                        chk.undecided(rule, pfi.qual, "how %s cuts the argument list into pairs was not recognised" % pfi.name, node=pfi.node, aux=True)
     retarget = [n for n in ast.walk(init_node) if isinstance(n, ast.Assign) and any(isinstance(t, ast.Attribute) and t.attr == "target" and not (isinstance(t.value, ast.Name) and t.value.id == "self") for t in n.targets)]
     names = {ast.unparse(t.value) for n in retarget for t in n.targets if isinstance(t, ast.Attribute)}
     # a local that stands for the controller being re-targeted (`controller = default; controller.target = target`)
